@@ -316,7 +316,7 @@ def _touch_all(doc):
 # =============================================================================================== C03
 C03_HISTORIES = ["none", "read_all", "body", "style", "meta", "add_file", "del_part", "setpart_fresh", "setpart_cached",
                  "setpart_read", "object_edit"]
-C03_CONFIGS = [("zip", "path"), ("zip", "bytesio"), ("folder", "path")]
+C03_CONFIGS = [("zip", "path"), ("zip", "bytesio"), ("folder", "path"), ("folder", "path-default")]
 
 
 # edits applied to the reopened document just before the second, in-place save (the target already exists and
@@ -381,6 +381,9 @@ def _c03_edit(doc, hist, info, td):
             doc.body.append(DrawPage("verifpage", name=MARK))
         else:
             doc.body.append(Paragraph(MARK))
+            from odfdo import Element
+            doc.body.append(Element.from_tag('<text:p>x<text:span>c<text:tab/></text:span>y<text:a xlink:type="simple" '
+                                             'xlink:href="#z">d<text:line-break/></text:a>e</text:p>'))
         return set(), lambda files: (_find_text(files["content.xml"], MARK), f"{MARK!r} not found in saved content.xml")
     if hist == "style":
         doc.insert_style(Style("paragraph", name="VerifStyleZq7"))
@@ -428,6 +431,11 @@ def _c03_edit(doc, hist, info, td):
 
         def chk(files):
             ok = _canon(files["content.xml"]) == _canon(raw)
+            if not ok and info.get("pretty_cfg"):
+                # written pretty-printed: the same document up to ignorable white space (comment kept)
+                tmp = NativeResult()
+                _compare_projections("content.xml", _project(raw), _project(files["content.xml"]), tmp)
+                ok = not tmp.failures
             return ok, "bytes given to set_part('content.xml', ...) are not what the saved content.xml holds"
         return set(), chk
     raise ValueError(hist)
@@ -438,10 +446,28 @@ def _c03_call(con, fn, argvals, labels):
     src, hist, pack, target, cycles = (argvals[k] for k in ("source", "history", "packaging", "target", "cycles"))
     fail = res.failures.append
     notes = []
+    # "path-default": the save is called with the library's defaults (a folder is written pretty-printed): XML parts are
+    # then compared up to the white space ODF consumers ignore (the layout-neutral projection of C11), not as infosets
+    pretty_cfg = target == "path-default"
+    pkw = {} if pretty_cfg else {"pretty": False}
+
+    def same(n, exp, got):
+        if pretty_cfg and _is_xml_name(n):
+            if bytes(exp[1]) == bytes(got):
+                return True, "xml", ""          # also the zero-length XML parts of the templates
+            tmp = NativeResult()
+            try:
+                strip = posixpath.basename(n) == "meta.xml"      # the generator stamp is C11's stated exception
+                _compare_projections(n, _project(_canon(bytes(exp[1]), strip)), _project(_canon(bytes(got), strip)), tmp)
+            except Exception as e:  # noqa
+                return False, "xml", f"{n}: {type(e).__name__}: {e}"
+            return (not tmp.failures), "xml", (tmp.failures[0][1] if tmp.failures else "")
+        return _same_content(n, exp, got)
     with tempfile.TemporaryDirectory(prefix="pyvc_c03_") as td:
         try:
             from odfdo import Document
             doc, info = _open_source(src)
+            info["pretty_cfg"] = pretty_cfg
             late = hist.endswith("@2")
             added, check = (set(), None) if late else _c03_edit(doc, hist, info, td)
         except _NotInDomain as e:
@@ -465,15 +491,15 @@ def _c03_call(con, fn, argvals, labels):
                 snap = _snapshot(doc)
                 if target == "bytesio":
                     buf = io.BytesIO()
-                    doc.save(buf, packaging=pack, pretty=False)
+                    doc.save(buf, packaging=pack, **pkw)
                     where = buf.getvalue()
                     reopen_arg = buf
                 elif cyc == 1:
-                    doc.save(out_path, packaging=pack, pretty=False)
+                    doc.save(out_path, packaging=pack, **pkw)
                     where = out_path + (".folder" if pack == "folder" else "")
                     reopen_arg = where
                 else:   # in place: the document was opened from `where`
-                    doc.save(packaging=pack, pretty=False)
+                    doc.save(packaging=pack, **pkw)
                     reopen_arg = where
                 res.checked += 1
                 _infos, files, dirs = _read_saved(pack, where)
@@ -497,7 +523,7 @@ def _c03_call(con, fn, argvals, labels):
             # content: XML parts as infosets, the rest byte-identical
             res.checked += 2
             for n in sorted(got_names & set(snap)):
-                ok, cat, detail = _same_content(n, snap[n], files[n])
+                ok, cat, detail = same(n, snap[n], files[n])
                 if not ok:
                     fail(("ensures:xml_infoset" if cat == "xml" else "ensures:binary_identical", f"cycle {cyc}: {detail}"))
             # the edit is what a reader of the file sees
@@ -518,7 +544,7 @@ def _c03_call(con, fn, argvals, labels):
                     if n not in files:
                         fail(("ensures:identity", f"cycle {cyc}: {n} of the source is missing"))
                         continue
-                    ok, _cat, detail = _same_content(n, ("bytes", info["files"][n]), files[n])
+                    ok, _cat, detail = same(n, ("bytes", info["files"][n]), files[n])
                     if not ok:
                         fail(("ensures:identity", f"cycle {cyc}: differs from the source: {detail}"))
             # iterating is a fixpoint
@@ -529,7 +555,7 @@ def _c03_call(con, fn, argvals, labels):
                 if set(files) != set(first_saved):
                     fail(("ensures:fixpoint", f"cycle {cyc}: part names changed {sorted(set(files) ^ set(first_saved))}"))
                 for n in sorted(set(files) & set(first_saved)):
-                    ok, _cat, detail = _same_content(n, ("bytes", first_saved[n]), files[n])
+                    ok, _cat, detail = same(n, ("bytes", first_saved[n]), files[n])
                     if not ok:
                         fail(("ensures:fixpoint", f"cycle {cyc} vs cycle 1: {detail}"))
             # reopen with the library: it must see the same parts
@@ -541,14 +567,14 @@ def _c03_call(con, fn, argvals, labels):
                     fail(("ensures:reopen", f"cycle {cyc}: reopened document lists lost {sorted(expected_names - seen)} "
                           f"invented {sorted(seen - expected_names)}"))
                 for n in sorted(seen & set(snap)):
-                    ok, _cat, detail = _same_content(n, snap[n], doc2.container.get_part(n))
+                    ok, _cat, detail = same(n, snap[n], doc2.container.get_part(n))
                     if not ok:
                         fail(("ensures:reopen", f"cycle {cyc}: reopened raw part: {detail}"))
                 for n in ("content.xml", "styles.xml", "meta.xml", "settings.xml", MANIFEST_PATH):
                     if n in snap:
                         raw_root = doc2.get_part(n).root._Element__element
                         got = etree.tostring(raw_root.getroottree(), encoding="UTF-8")
-                        ok, _cat, detail = _same_content(n, snap[n], got)
+                        ok, _cat, detail = same(n, snap[n], got)
                         if not ok:
                             fail(("ensures:reopen", f"cycle {cyc}: reopened parsed part: {detail}"))
             except Exception as e:  # noqa
@@ -582,9 +608,13 @@ contract(
               "x histories {none, read_all (parse the 5 XML parts), body (append paragraph / set cell A1 / append draw:page), "
               "style (insert_style common paragraph style), meta (set title), add_file (184-byte PNG-like file), del_part "
               "(thumbnail, else first non-mandatory part), "
-              "setpart_fresh, setpart_cached (set_part('content.xml', raw) before / after reading body)} "
-              "x {(zip,path), (zip,BytesIO), (folder,path)} with pretty=False x 2 save/reopen cycles (checked after each; "
-              "cycle 2 saves in place for path targets) + the same on the 4 templates with 1 cycle",
+              "setpart_fresh, setpart_cached, setpart_read (set_part('content.xml', raw with a comment) before / after reading "
+              "body / followed by a read), object_edit (edit inside an embedded object's content.xml), and the late edits "
+              "del_part@2, add_file@2, setpart_fresh@2, setpart_read@2 applied to the reopened, still unread document before "
+              "the in-place second save} x {(zip,path), (zip,BytesIO), (folder,path)} with pretty=False, and (folder,path) with "
+              "the library's default options (pretty-printed: XML parts compared up to ignorable white space) x 2 "
+              "save/reopen cycles (checked after each; cycle 2 saves in place for path targets and starts from a document "
+              "nobody has read) + the same on the 4 templates with 1 cycle",
         reason="zipfile / filesystem / lxml are outside the executor's fragment; the dict-with-symbolic-keys package "
                "model of DESIGN C03 is not closed"),
 )
